@@ -20,10 +20,17 @@ var (
 	blkHolders = []string{"func", "literal", "method"}
 	blkMains   = []string{"busy", "blocked-recv", "blocked-select-empty", "blocked-select1"}
 	blkWorkers = []int{1, 3}
+	blkDepths  = []string{"callee", "own"}
 )
 
-func blkName(form, holder, main string, workers int) string {
-	return fmt.Sprintf("blk/%s/%s/%s/%d", form, holder, main, workers)
+// blkCrowd is the number of workers of the crowd programs (Blocking.tla Crowd).
+const blkCrowd = 2000
+
+func blkName(form, holder, main string, workers int, depth string) string {
+	if depth == "own" {
+		return fmt.Sprintf("blk/%s/%s/%s/%d", form, holder, main, workers)
+	}
+	return fmt.Sprintf("blk/%s/%s/%s/%d/%s", form, holder, main, workers, depth)
 }
 
 func sendLike(form string) bool { return form == "send" || form == "select1-send" }
@@ -59,17 +66,37 @@ func blkBody(form string) string {
 	return "/* ? */"
 }
 
-func blkProgram(form, holder, main string, workers int) program {
+func blkProgram(form, holder, main string, workers int, depth string) program {
 	var b strings.Builder
 	b.WriteString("package main\n\nimport \"h\"\n\nvar idle = make(chan int)\n\nvar park = make(chan int)\n\n")
 	loop := "\tfor i := 0; ; i++ {\n\t\t" + blkBody(form) + "\n\t\t_ = i\n\t}\n"
+	stepBody := "\t" + strings.ReplaceAll(blkBody(form), "\n\t\t", "\n\t") + "\n\t_ = i\n"
+	if depth == "callee" {
+		// the blocking statement lives in a callee; when it returns the caller has a side effect left
+		switch holder {
+		case "func":
+			b.WriteString("func step(id, i int, c chan int) {\n" + stepBody + "}\n\n")
+			loop = "\tfor i := 0; ; i++ {\n\t\tstep(id, i, c)\n\t\th.Tick(-7)\n\t}\n"
+		case "method":
+			loop = "\tfor i := 0; ; i++ {\n\t\tw.step(i, c)\n\t\th.Tick(-7)\n\t}\n"
+		case "literal":
+			loop = "\tfor i := 0; ; i++ {\n\t\tstep(id, i)\n\t\th.Tick(-7)\n\t}\n"
+		}
+	}
 	switch holder {
 	case "func":
 		b.WriteString("func worker(id int, c chan int) {\n" + loop + "}\n\n")
 	case "method":
-		b.WriteString("type W struct{ id int }\n\nfunc (w W) run(c chan int) {\n\tid := w.id\n" + loop + "}\n\n")
+		b.WriteString("type W struct{ id int }\n\n")
+		if depth == "callee" {
+			b.WriteString("func (w W) step(i int, c chan int) {\n\tid := w.id\n" + stepBody + "\t_ = id\n}\n\n")
+		}
+		b.WriteString("func (w W) run(c chan int) {\n\tid := w.id\n" + loop + "\t_ = id\n}\n\n")
 	}
 	b.WriteString("func main() {\n\tc := make(chan int)\n")
+	if holder == "literal" && depth == "callee" {
+		b.WriteString("\tstep := func(id, i int) {\n\t" + strings.ReplaceAll(stepBody, "\n\t", "\n\t\t") + "}\n")
+	}
 	fmt.Fprintf(&b, "\tfor w := 0; w < %d; w++ {\n", workers)
 	switch holder {
 	case "func":
@@ -80,10 +107,14 @@ func blkProgram(form, holder, main string, workers int) program {
 		b.WriteString("\t\tgo func(id int) {\n\t" + strings.ReplaceAll(loop, "\n\t", "\n\t\t") + "\t}(w)\n")
 	}
 	b.WriteString("\t}\n")
+	rounds := 2 * workers
+	if workers == blkCrowd {
+		rounds = 10
+	}
 	if sendLike(form) {
-		fmt.Fprintf(&b, "\tfor r := 0; r < %d; r++ {\n\t\th.Tick(<-c)\n\t}\n", 2*workers)
+		fmt.Fprintf(&b, "\tfor r := 0; r < %d; r++ {\n\t\th.Tick(<-c)\n\t}\n", rounds)
 	} else {
-		fmt.Fprintf(&b, "\tfor r := 0; r < %d; r++ {\n\t\tc <- r\n\t}\n", 2*workers)
+		fmt.Fprintf(&b, "\tfor r := 0; r < %d; r++ {\n\t\tc <- r\n\t}\n", rounds)
 	}
 	switch main {
 	case "busy":
@@ -96,7 +127,8 @@ func blkProgram(form, holder, main string, workers int) program {
 		b.WriteString("\tselect {\n\tcase v := <-park:\n\t\th.Tick(v)\n\t}\n")
 	}
 	b.WriteString("}\n")
-	return program{Name: blkName(form, holder, main, workers), Src: b.String(), Full: true, Class: "blocking-family", ChanInLit: holder == "literal"}
+	return program{Name: blkName(form, holder, main, workers, depth), Src: b.String(), Full: true, Class: "blocking-family",
+		ChanInLit: holder == "literal", Crowd: workers == blkCrowd}
 }
 
 // firstBlocking is the index of the first program of the family in the table.
@@ -108,10 +140,15 @@ func init() {
 		for _, hd := range blkHolders {
 			for _, m := range blkMains {
 				for _, w := range blkWorkers {
-					programs = append(programs, blkProgram(f, hd, m, w))
+					for _, d := range blkDepths {
+						programs = append(programs, blkProgram(f, hd, m, w, d))
+					}
 				}
 			}
 		}
+	}
+	for _, f := range blkForms {
+		programs = append(programs, blkProgram(f, "func", "blocked-recv", blkCrowd, "callee"))
 	}
 }
 
@@ -124,8 +161,8 @@ func checkBlockingFamily(c *fw.Ctx) error {
 	var got []string
 	for _, raw := range res.Beh {
 		var r struct {
-			Form, Holder, Main, Waits string
-			Workers                   int
+			Form, Holder, Main, Waits, Depth string
+			Workers                          int
 		}
 		if err := json.Unmarshal(raw, &r); err != nil {
 			return err
@@ -133,7 +170,7 @@ func checkBlockingFamily(c *fw.Ctx) error {
 		if (r.Waits == "receiver") != sendLike(r.Form) {
 			c.SpecError("Blocking.tla classifies %s as waiting for a %s, the renderer serves it otherwise", r.Form, r.Waits)
 		}
-		got = append(got, blkName(r.Form, r.Holder, r.Main, r.Workers))
+		got = append(got, blkName(r.Form, r.Holder, r.Main, r.Workers, r.Depth))
 	}
 	var want []string
 	for _, p := range programs[firstBlocking:] {
